@@ -17,8 +17,10 @@ inductive Kind
   | double
 deriving DecidableEq, Repr
 
-/-- `int64_t → double` (IEEE round-to-nearest, ties-to-even): the usual arithmetic conversion the compiler inserts
-    when `std::lower_bound` compares a `double` boundary with an `int64_t` value. -/
+/-- `int64_t → double` (IEEE round-to-nearest, ties-to-even): the arithmetic conversion the compiler inserted when
+    `std::lower_bound` compared a `double` boundary with an `int64_t` value *before* the repair of
+    `BucketBinarySearch(int64_t, …)`; kept for the kernel-checked witness of the old behaviour
+    (`Otel.C07.bucket_long_aswas_witness`). -/
 def roundToDouble (v : Int) : Int :=
   let a := v.natAbs
   let n := Nat.log2 a + 1
@@ -30,10 +32,24 @@ def roundToDouble (v : Int) : Int :=
     let q' := if half < r ∨ (r = half ∧ q % 2 = 1) then q + 1 else q
     if v < 0 then -((q' * 2 ^ sh : Nat) : Int) else ((q' * 2 ^ sh : Nat) : Int)
 
-/-- the value as `BucketBinarySearch<T>` sees it when comparing with a `double` boundary -/
+/-- the value as `BucketBinarySearch` compares it with a `double` boundary: exactly, for both kinds (the `int64_t`
+    overload compares through `BucketBoundaryLessThan`, below; `Otel.C07.bucketLong_eq_bucket`) -/
 def Kind.conv : Kind → Rat → Rat
-  | .long, v => ((roundToDouble v.num : Int) : Rat)
+  | .long, v => v
   | .double, v => v
+
+/-- `BucketBoundaryLessThan(double boundary, int64_t value)` line by line: `boundary < value` decided without converting
+    `value` to `double` - boundaries at or above 2^63 are below no `int64_t`, boundaries below -2^63 are below every one,
+    and for the others `floor(boundary)` fits an `int64_t` and is compared as an integer. -/
+def boundaryLess (b : Rat) (i : Int) : Bool :=
+  if ¬ (b < Gen.histLongCmpHi) then false
+  else if b < Gen.histLongCmpLo then true
+  else decide (b.floor < i)
+
+/-- `BucketBinarySearch(int64_t value, boundaries)`: `std::lower_bound` with the comparator above -/
+def bucketLong (i : Int) : List Rat → Nat
+  | [] => 0
+  | b :: bs => if boundaryLess b i then bucketLong i bs + 1 else 0
 
 def Kind.minInit : Kind → Rat
   | .long => Gen.histLongMinInit
@@ -93,6 +109,20 @@ def aggregate (k : Kind) (p : Point) (v : Rat) : Point :=
     min := if p.recordMinMax then cmin p.min v else p.min
     max := if p.recordMinMax then cmax p.max v else p.max
     recordMinMax := p.recordMinMax }
+
+/-- `LongHistogramAggregation::Aggregate(int64_t value)` with the bucket found by the `int64_t` overload of
+    `BucketBinarySearch` (code level; `Otel.C07.aggregateLongC_eq` shows it is `aggregate .long` on `int64_t` values) -/
+def aggregateLongC (p : Point) (i : Int) : Point :=
+  { boundaries := p.boundaries
+    counts := p.counts.modify (bucketLong i p.boundaries) (· + 1)
+    count := p.count + 1
+    sum := p.sum + (i : Rat)
+    min := if p.recordMinMax then cmin p.min (i : Rat) else p.min
+    max := if p.recordMinMax then cmax p.max (i : Rat) else p.max
+    recordMinMax := p.recordMinMax }
+
+/-- the point after recording the `int64_t` values `is` into a fresh `LongHistogramAggregation` (code level) -/
+def histLongC (cfg : Option Config) (is : List Int) : Point := is.foldl aggregateLongC (new .long cfg)
 
 /-- `cur.Merge(delta)`: a fresh aggregation over `cur`'s boundaries filled by `HistogramMerge`.
     (The private member `record_min_max_` of the result is not observable through `ToPoint` and is not modelled; the
